@@ -117,6 +117,9 @@ def run_impl(c):
             raise ValueError(c.op)
     except Exception as ex:
         o = {"exc": type(ex).__name__, "msg": str(ex)[:200]}
+        if c.op.startswith("solve") and a.get("sparse") and "broadcast" in str(ex):
+            # the stratified function/gradient sampler came back with fewer subscripts than values (finding C13-S1)
+            o["meta"] = {"short": True}
     c.meta.update(o.pop("meta", {}) if isinstance(o, dict) else {})
     return o
 
@@ -147,8 +150,10 @@ def coq_check(c, o):
             return "false"
         ws = _gqlist(o["weights"])
         if c.op == "uniform":
-            return (f"zmat_eqb (zuniform_subs {gnlist(shp)} {gzmat(o['draws'])}) {gzmat(o['subs'])} && "
-                    f"vec_eqb (zuniform_vals {X} {gzmat(o['draws'])}) {gzlist(o['vals'])} && "
+            return (f"((zmat_eqb (zuniform_subs {gnlist(shp)} {gzmat(o['draws'])}) {gzmat(o['subs'])} && "
+                    f"vec_eqb (zuniform_vals {X} {gzmat(o['draws'])}) {gzlist(o['vals'])}) || "
+                    f"(zmat_eqb (fx_uniform_subs {gnlist(shp)} {gzmat(o['draws'])}) {gzmat(o['subs'])} && "
+                    f"vec_eqb (fx_uniform_vals {X} {gzmat(o['draws'])}) {gzlist(o['vals'])})) && "
                     f"weights_close {ws} (zq {gz(size)}) {gnat(n)}")
         shape_ok = "true" if o["vals_shape"] == [n] and o["weights_shape"] == [n] and o["subs_shape"] == [n, len(shp)] else "false"
         return (f"sample_ok_dense {X} {gzmat(o['subs'])} {gzlist(o['vals'])} {gnat(len(o['weights']))} && {shape_ok} && "
@@ -163,25 +168,37 @@ def coq_check(c, o):
         wn, wz = o["weights"][:cn], o["weights"][cn:]
         zero_total = size if semi else size - nnz
         if c.op in ("stratified", "semistrat"):
-            if semi:
-                subs = f"zsemi_subs {S} {gnlist(o['nidx'])} {gzmat(o['draws'])}"
-                vals = f"zsemi_vals {S} {gnlist(o['nidx'])} {gzmat(o['draws'])}"
-            else:
-                subs = f"zstrat_subs {S} (znzidx {S}) {gnlist(o['nidx'])} {gzmat(o['draws'])} {gnat(cz)}"
-                vals = f"zstrat_vals {S} {gnlist(o['nidx'])} {gnat(cz)}"
+            nidx, draws = gnlist(o["nidx"]), gzmat(o["draws"])
+            got = len(o["subs"]) - cn          # zero subscripts actually returned
             wchk = "true"
             if cn > 0:
                 wchk += f" && weights_close {_gqlist(wn)} (zq {gz(nnz)}) {gnat(cn)}"
-            if cz > 0:
-                wchk += f" && weights_close {_gqlist(wz)} (zq {gz(zero_total)}) {gnat(cz)}"
-            return f"zmat_eqb ({subs}) {gzmat(o['subs'])} && vec_eqb ({vals}) {gzlist(o['vals'])} && {wchk}"
+            if semi:
+                subs = f"zsemi_subs {S} {nidx} {draws}"
+                vals = f"zsemi_vals {S} {nidx} {draws}"
+                fsubs, fvals = f"fx_semi_subs {S} {nidx} {draws}", vals
+                if cz > 0:
+                    wchk += f" && weights_close {_gqlist(wz)} (zq {gz(zero_total)}) {gnat(cz)}"
+            else:
+                subs = f"zstrat_subs {S} (znzidx {S}) {nidx} {draws} {gnat(cz)}"
+                vals = f"zstrat_vals {S} {nidx} {gnat(cz)}"
+                fsubs = f"fx_strat_subs {S} (znzidx {S}) {nidx} {draws} {gnat(cz)}"
+                fvals = f"fx_strat_vals {S} (znzidx {S}) {nidx} {draws} {gnat(cz)}"
+                if cz > 0 and len(wz) == cz:
+                    wchk += f" && weights_close {_gqlist(wz)} (zq {gz(zero_total)}) {gnat(cz)}"
+                elif len(wz) == got and got > 0:      # repaired: sized by what was obtained
+                    wchk += f" && weights_close {_gqlist(wz)} (zq {gz(zero_total)}) {gnat(got)}"
+                elif len(wz) != got:
+                    wchk = "false"
+            return (f"((zmat_eqb ({subs}) {gzmat(o['subs'])} && vec_eqb ({vals}) {gzlist(o['vals'])}) || "
+                    f"(zmat_eqb ({fsubs}) {gzmat(o['subs'])} && vec_eqb ({fvals}) {gzlist(o['vals'])})) && {wchk}")
         nw = len(o["weights"])
         ntot = len(o["subs"])
         shape_ok = "true" if o["vals_shape"] == [ntot] and o["weights_shape"] == [ntot] else "false"
         tot = "true"
         if cn > 0:
             tot += f" && total_close {_gqlist(wn)} (zq {gz(nnz)})"
-        if cz > 0:
+        if cz > 0 and wz:
             tot += f" && total_close {_gqlist(wz)} (zq {gz(zero_total)})"
         zeros_part = gzmat(o["subs"][cn:])
         ztrue = "true" if semi else f"zeros_ok_sp {S} {zeros_part}"
@@ -224,11 +241,11 @@ TRIGGERS = {
     "trace_after_an_epoch": lambda c: c.op == "solve_trace" and c.args["max_iters"] >= 1,
     "stateful_optimizer_reused": lambda c: c.op == "reuse" and c.args["opt"] in ("adam", "adagrad"),
     "single_sample": lambda c: (c.op == "uniform_prop" and c.args["n"] == 1) or
-                               (c.op == "stratified_prop" and c.meta.get("total") == 1),
+                               (c.op == "stratified_prop" and c.meta.get("total") == 1 and bool(c.args["subs"])),
     "draw_is_zero": lambda c: c.op.split("_")[0] in ("uniform", "stratified", "semistrat") and _zero_draw(c),
-    "sptensor_without_nonzeros": lambda c: c.op in ("stratified", "stratified_prop") and not c.args["subs"] and c.args["cn"] == 0,
+    "sptensor_without_nonzeros": lambda c: c.op.split("_")[0] in ("stratified", "semistrat") and not c.args["subs"] and c.args["cn"] == 0,
     "semistrat_zero_hits_nonzero": lambda c: c.op == "semistrat_prop" and bool(c.meta.get("semi_hit")),
-    "zero_supply_short": lambda c: c.op in ("stratified", "stratified_prop") and bool(c.meta.get("short")),
-    "semistrat_no_requested_nonzeros": lambda c: c.op in ("semistrat", "semistrat_prop") and c.args["cn"] == 0,
+    "zero_supply_short": lambda c: c.op in ("stratified", "stratified_prop", "solve", "solve_trace") and bool(c.meta.get("short")),
+    "semistrat_no_requested_nonzeros": lambda c: c.op in ("semistrat", "semistrat_prop") and c.args["cn"] == 0 and bool(c.args["subs"]),
 }
 WITNESSES = U.WITNESSES
